@@ -48,7 +48,7 @@
     X(num_bad_ok_prefix, "numeric.malformed.ok_for_wellformed_prefix") X(num_bad_error_170, "numeric.malformed.error_with_170") X(num_bad_error_other, "numeric.malformed.error_without_170.counted_only") \
     X(num_bad_no_more, "numeric.malformed.no_more.counted_only") X(num_bad_no_more_before_bad, "numeric.malformed.no_more_before_first_bad_entry.counted_only") X(num_lenient_calls, "numeric.lenient.calls") \
     X(ch_ok, "channel.wellformed.ok") X(ch_ok_range, "channel.wellformed.ok_range") X(ch_ok_multidim, "channel.wellformed.ok_multidim") X(ch_no_more, "channel.wellformed.no_more_nothing_queued") \
-    X(ch_cap_lt, "channel.wellformed.ok_capacity_lt_dimensions") X(ch_cap_gt, "channel.wellformed.ok_capacity_gt_dimensions") X(ch_cap0_null, "channel.capacity0_null_arrays") X(ch_cap0_cell, "channel.capacity0_zero_size_cells") \
+    X(ch_cap_lt, "channel.wellformed.ok_capacity_lt_dimensions") X(ch_cap_gt, "channel.wellformed.ok_capacity_gt_dimensions") X(gen_long_entry, "generated.entries_spelled_with_40_to_320_characters") X(ch_cap0_null, "channel.capacity0_null_arrays") X(ch_cap0_cell, "channel.capacity0_zero_size_cells") \
     X(ch_val_cmp, "channel.values_compared") X(ch_val_skip, "channel.values_out_of_int32.not_compared") X(ch_to_touched, "channel.single_value_to_modified.counted_only") \
     X(ch_bad_ok_prefix, "channel.malformed.ok_for_wellformed_prefix") X(ch_bad_error_prefix, "channel.malformed.error_170_for_wellformed_prefix") X(ch_bad_error_170, "channel.malformed.error_with_170") \
     X(ch_noat_error_170, "channel.no_at.error_with_170") X(ch_lenient_calls, "channel.lenient.calls") X(ch_nonok_touched, "channel.arrays_modified_on_non_ok.within_capacity.counted_only") \
@@ -207,6 +207,16 @@ static double ref_dbl(const char * s, int len) {
     return d;
 }
 
+/* number decoding itself is C04's subject; its recorded finding (64+ characters and white space around the exponent mark ->
+ * mantissa only, key C04:long-literal-with-exponent-white-space-decoded-as-mantissa) is not reported a second time here */
+static int dbl_matches_literal(double lib, const char * s, int len) {
+    int i, k = 0, ws = 0; double ref = ref_dbl(s, len);
+    if (memcmp(&lib, &ref, sizeof lib) == 0) return 1;
+    for (i = 0; i < len; i++) if (s[i] == ' ' || s[i] == '\t') ws = 1; else k++;
+    if (ws && k >= 64) { char * h = (char *) malloc((size_t) len + 1); double m; memcpy(h, s, (size_t) len); h[len] = 0; m = strtod(h, NULL); free(h); if (m == lib) { vh_count("values.c04_long_literal_finding_seen_not_reported_here", 1); return 1; } }
+    return 0;
+}
+
 /* ---- the case context ---------------------------------------------------------------------------------- */
 typedef struct {
     vh_ctx_t * v;
@@ -270,8 +280,8 @@ static int report_matches(const cx_t * c, const rent_t * e, const report_t * r) 
             if (e->is_range && e->to[0].int_ok && r->i_t[0] != e->to[0].ival) return 0;
             return 1;
         case M_DOUBLE:
-            if (!dbl_same(r->d_f, ref_dbl(c->body + e->from[0].off, e->from[0].len))) return 0;
-            if (e->is_range && !dbl_same(r->d_t, ref_dbl(c->body + e->to[0].off, e->to[0].len))) return 0;
+            if (!dbl_matches_literal(r->d_f, c->body + e->from[0].off, e->from[0].len)) return 0;
+            if (e->is_range && !dbl_matches_literal(r->d_t, c->body + e->to[0].off, e->to[0].len)) return 0;
             return 1;
         default:
             if (r->dims != (size_t) e->ndim) return 0;
@@ -359,11 +369,11 @@ static void check_numeric(cx_t * c, int mode, int idx) {
             } else {
                 double xf = ref_dbl(c->body + e->from[0].off, e->from[0].len);
                 CNT(num_dbl_cmp);
-                if (!dbl_same(d_f, xf)) VIOL(K_num_dbl, "%s(\"(%s)\", index %d): from=%.17g expected %.17g, entry \"%s\"", fn_names[mode], vh_esc(c->body, (size_t) c->len), idx, d_f, xf, vh_esc(c->body + e->off, (size_t) e->len));
+                if (!dbl_matches_literal(d_f, c->body + e->from[0].off, e->from[0].len)) VIOL(K_num_dbl, "%s(\"(%s)\", index %d): from=%.17g expected %.17g, entry \"%s\"", fn_names[mode], vh_esc(c->body, (size_t) c->len), idx, d_f, xf, vh_esc(c->body + e->off, (size_t) e->len));
                 if (e->is_range) {
                     double xt = ref_dbl(c->body + e->to[0].off, e->to[0].len);
                     CNT(num_dbl_cmp);
-                    if (!dbl_same(d_t, xt)) VIOL(K_num_dbl, "%s(\"(%s)\", index %d): to=%.17g expected %.17g, entry \"%s\"", fn_names[mode], vh_esc(c->body, (size_t) c->len), idx, d_t, xt, vh_esc(c->body + e->off, (size_t) e->len));
+                    if (!dbl_matches_literal(d_t, c->body + e->to[0].off, e->to[0].len)) VIOL(K_num_dbl, "%s(\"(%s)\", index %d): to=%.17g expected %.17g, entry \"%s\"", fn_names[mode], vh_esc(c->body, (size_t) c->len), idx, d_t, xt, vh_esc(c->body + e->off, (size_t) e->len));
                 } else { double a5; memset(&a5, 0xA5, sizeof a5); if (dbl_same(d_t, a5)) CNT(num_to_untouched); else CNT(num_to_touched); }
             }
         } else {
@@ -542,7 +552,8 @@ static void gen_int(vh_rng_t * r, vh_buf_t * b) {
         case 8:
             if (vh_chance(r, 1, 2)) vh_buf_printf(b, "%s%u", vh_chance(r, 1, 2) ? "+" : "00", vh_below(r, 1000));
             else { /* padding zeros are legal and unlimited: tokens longer than any "longest int32 spelling" */
-                int z = 3 + (int) vh_below(r, 24); if (vh_chance(r, 1, 3)) vh_buf_addc(b, vh_chance(r, 1, 2) ? '-' : '+');
+                static const int zs[] = { 40, 54, 55, 56, 60, 62, 63, 64, 65, 66, 70, 120, 127, 128, 250, 255, 256, 300 };
+                int z = vh_chance(r, 1, 3) ? zs[vh_below(r, sizeof zs / sizeof zs[0])] : 3 + (int) vh_below(r, 24); if (z >= 40) CNT(gen_long_entry); if (vh_chance(r, 1, 3)) vh_buf_addc(b, vh_chance(r, 1, 2) ? '-' : '+');
                 while (z--) vh_buf_addc(b, '0');
                 vh_buf_printf(b, "%u", vh_chance(r, 1, 4) ? 2147483647u : vh_below(r, 100000));
             }
@@ -552,6 +563,19 @@ static void gen_int(vh_rng_t * r, vh_buf_t * b) {
 }
 static void gen_number(vh_rng_t * r, vh_buf_t * b) { /* 488.2 NRf without white space */
     const char * sg = vh_chance(r, 1, 3) ? "-" : (vh_chance(r, 1, 8) ? "+" : "");
+    if (vh_chance(r, 1, 24)) {
+        /* one number spelled with more characters than any fixed conversion buffer: long integer, long zero fraction before an exponent */
+        static const int ls[] = { 40, 60, 63, 64, 65, 66, 70, 127, 128, 130, 255, 256, 260, 320 };
+        int n = ls[vh_below(r, sizeof ls / sizeof ls[0])], i;
+        vh_buf_adds(b, sg);
+        switch (vh_below(r, 3)) {
+            case 0: vh_buf_printf(b, "%u", 1 + vh_below(r, 9)); for (i = 0; i < n; i++) vh_buf_addc(b, '0'); break;                                   /* d * 10^n */
+            case 1: vh_buf_printf(b, "%u.", 1 + vh_below(r, 9)); for (i = 0; i < n; i++) vh_buf_addc(b, '0'); vh_buf_printf(b, "e%u", 1 + vh_below(r, 9)); break; /* exponent behind a long fraction */
+            default: for (i = 0; i < n; i++) vh_buf_addc(b, '0'); vh_buf_printf(b, "%u.5", vh_below(r, 1000)); break;                               /* padded */
+        }
+        CNT(gen_long_entry);
+        return;
+    }
     switch (vh_below(r, 12)) {
         case 0: case 1: case 2: case 3: case 4: gen_int(r, b); break;
         case 5: vh_buf_printf(b, "%s%u.%u", sg, vh_below(r, 1000), vh_below(r, 10000)); break;
@@ -676,6 +700,7 @@ int main(int argc, char ** argv) {
         { "grammar", p1_count, p1_run },
         { "mutate", p2_count, p2_run },
     };
+    vh_require("generated.entries_spelled_with_40_to_320_characters");
     vh_require("numeric.wellformed.ok");
     vh_require("numeric.wellformed.ok_range");
     vh_require("numeric.wellformed.no_more_nothing_queued");
